@@ -13,7 +13,7 @@ def shard(args):
     bdir, wd, seed, s, nsh, n = args
     cases, meta = [], {}
     for i in range(s, n, nsh):
-        ex = grammar.gen_exchange(seed * 1000003 + i, {'res_fold': False})
+        ex = grammar.gen_exchange(seed * 1000003 + i, {'res_fold': False, 'p_interim': 0.06})
         r = grammar.Rng(seed * 7919 + i)
         kind, ops = oracle.schedules(ex, r)
         if r.chance(0.5):
